@@ -279,7 +279,7 @@ class C12:
                 stats.evaluations += 65536
                 if got != want:
                     diff = sorted(set(got.items()) ^ set(want.items()))[:6]
-                    return {'case': {'kind': 'findbe', 'schema': sname}, 'msg': 'C12: find_be over 0..65535 disagrees with the field table: %r' % diff}
+                    return {'case': {'kind': 'findbe', 'seed': seed, 'schema': sname}, 'msg': 'C12: find_be over 0..65535 disagrees with the field table: %r' % diff}
                 stats.nontrivial.update(pbt.case_hash([sname, 'be', t]) for t in range(0, 65536, 257) if t not in want)
                 # 2. message table + near misses
                 raw = sch.raw['msgs']
@@ -290,11 +290,11 @@ class C12:
                     stats.evaluations += 1
                     if p in raw:
                         if not r or r[0] != raw[p]['name'] or r[1] != p:
-                            return {'case': {'kind': 'bme', 'schema': sname, 'key': p}, 'msg': 'C12: message table lookup of present key %r returned %r' % (p, r)}
+                            return {'case': {'kind': 'bme', 'seed': seed, 'schema': sname, 'key': p}, 'msg': 'C12: message table lookup of present key %r returned %r' % (p, r)}
                     else:
                         stats.nontrivial.add(pbt.case_hash([sname, 'bme', p]))
                         if r:
-                            return {'case': {'kind': 'bme', 'schema': sname, 'key': p}, 'msg': 'C12: message table lookup of absent key %r hit %r' % (p, r)}
+                            return {'case': {'kind': 'bme', 'seed': seed, 'schema': sname, 'key': p}, 'msg': 'C12: message table lookup of absent key %r hit %r' % (p, r)}
                 # 3. reverse tables
                 fnames = {f['name']: tag for tag, f in sch.fields.items()}
                 mnames = {v['name']: k for k, v in raw.items()}
@@ -306,9 +306,9 @@ class C12:
                         stats.evaluations += 1
                         wf = fnames.get(p, 0)
                         if r['fnum'] != wf or (('be_fnum' in r) != (p in fnames)) or (p in fnames and (r['be_fnum'] != wf or r['be_name'] != p)):
-                            return {'case': {'kind': 'reverse', 'schema': sname, 'key': p}, 'msg': 'C12: reverse field lookup of %r returned %r, table says %r' % (p, r, wf)}
+                            return {'case': {'kind': 'reverse', 'seed': seed, 'schema': sname, 'key': p}, 'msg': 'C12: reverse field lookup of %r returned %r, table says %r' % (p, r, wf)}
                         if (('bme_name' in r) != (p in mnames)) or (p in mnames and r['bme_name'] != p):
-                            return {'case': {'kind': 'reverse', 'schema': sname, 'key': p}, 'msg': 'C12: reverse message lookup of %r returned %r' % (p, r)}
+                            return {'case': {'kind': 'reverse', 'seed': seed, 'schema': sname, 'key': p}, 'msg': 'C12: reverse message lookup of %r returned %r' % (p, r)}
                         if p not in fnames and p not in mnames:
                             stats.nontrivial.add(pbt.case_hash([sname, 'rev', p]))
                 # 4. trait sets of every message/header/trailer/group, all tags
@@ -322,7 +322,7 @@ class C12:
                         want[t.tag] = [1, 1, 1, t.pos if haspos else 0, int(t.man), int(t.grp), t.comp]
                     if got != want:
                         bad = sorted(k for k in set(got) | set(want) if got.get(k) != want.get(k))[:5]
-                        return {'case': {'kind': 'traitscan', 'schema': sname, 'msg': mt, 'path': path},
+                        return {'case': {'kind': 'traitscan', 'seed': seed, 'schema': sname, 'msg': mt, 'path': path},
                                 'msg': 'C12: trait set %s/%s %s: lookups over 0..65535 disagree with the trait array for tags %s: got %s want %s' % (
                                     sname, mt, path, bad, [got.get(b) for b in bad], [want.get(b) for b in bad])}
                     stats.classes['trait_sets_scanned'] += 1
@@ -362,6 +362,12 @@ class C12:
 
     def run(self, case, ex):
         kind = case['kind']
+        if kind in ('findbe', 'bme', 'reverse', 'traitscan'):
+            # a failure of the enumerated part: the enumeration is deterministic, replaying it is running it again
+            f = self.pre_search(pbt.Stats(), case.get('seed', 0))
+            if f is not None:
+                raise Violation(f['msg'])
+            return {}
         init = list(case['init']) if case['from_array'] else []
         reserve = case['reserve']
         if not init and reserve == 0:
